@@ -258,7 +258,8 @@ namespace OP2Utility::XFile
 
 		fs::path p(pathStr);
 		auto returnPathStr = p.parent_path().generic_string();
-		if (returnPathStr.size() > 0) {
+		// Note: The parent of "/a" is the root directory "/", which already ends with a separator
+		if (returnPathStr.size() > 0 && returnPathStr.back() != '/') {
 			returnPathStr += "/";
 		}
 		return returnPathStr;
